@@ -230,6 +230,54 @@ func c11Run(ioType byte, fillerLen int, c c11Case, res *TaskResult) (v *Violatio
 	if ps := physSize(); ps != prevEnd {
 		return fail("physical-size", "after reopen+append+Close: os.Stat size = %d, logical size = %d", ps, prevEnd), fileBytes, startOff
 	}
+	// truncate back to the end of the first record after the filler (what torn-tail recovery does), then append:
+	// logical and physical size must follow, positions must continue from the new end
+	if len(c.Recs) > 0 {
+		keep := 1
+		if fillerLen >= 0 {
+			keep = 2
+		}
+		if keep < len(written) {
+			cutAt := int64(written[keep].pos.BlockID)*32768 + int64(written[keep].pos.Offset)
+			// a record that starts a block after tail padding: the cut goes to the end of the previous record
+			prev := written[keep-1].pos
+			if e := int64(prev.BlockID)*32768 + int64(prev.Offset) + int64(prev.Size); e < cutAt {
+				cutAt = e
+			}
+			df, err = datafile.OpenFile(dir, 7, datafile.DataFileSuffix, ioType)
+			if err != nil {
+				return fail("reopen", "OpenFile (before truncate): %v", err), fileBytes, startOff
+			}
+			if err := df.Truncate(cutAt); err != nil {
+				return fail("truncate", "Truncate(%d): %v", cutAt, err), fileBytes, startOff
+			}
+			written = written[:keep]
+			prevEnd = cutAt
+			if got := df.Size(); got != cutAt {
+				return fail("logical-size", "after Truncate(%d): DataFile.Size() = %d", cutAt, got), fileBytes, startOff
+			}
+			if ioType == 0 {
+				if ps := physSize(); ps != cutAt {
+					return fail("physical-size", "after Truncate(%d): os.Stat size = %d", cutAt, ps), fileBytes, startOff
+				}
+			}
+			if v := verify(df, "after truncate"); v != nil {
+				return v, fileBytes, startOff
+			}
+			if v := writeOne(recSpec{Key: "y", VLen: 9}, 10, "append after truncate"); v != nil {
+				return v, fileBytes, startOff
+			}
+			if v := verify(df, "after truncate+append"); v != nil {
+				return v, fileBytes, startOff
+			}
+			if err := df.Close(); err != nil {
+				return fail("close", "Close: %v", err), fileBytes, startOff
+			}
+			if ps := physSize(); ps != prevEnd {
+				return fail("physical-size", "after truncate+append+Close: os.Stat size = %d, logical size = %d", ps, prevEnd), fileBytes, startOff
+			}
+		}
+	}
 	return nil, fileBytes, startOff
 }
 
